@@ -121,6 +121,8 @@ func formatOracle(src []byte, o Options) (msg string, info c39Info) {
 		return "", info
 	}
 	info.parsed = true
+	j1, e1 := astJSON(pr.Program)
+	info.j1 = j1
 	out, err, p := formatGuarded(src, o)
 	if p != nil {
 		return fmt.Sprintf("formatter panicked: %v", p), info
@@ -140,12 +142,10 @@ func formatOracle(src []byte, o Options) (msg string, info c39Info) {
 		return "formatter output does not parse: " + parseErrorSummary(pr2.Err), info
 	}
 	// (2) same AST modulo import order
-	j1, e1 := astJSON(pr.Program)
 	j2, e2 := astJSON(pr2.Program)
 	if e1 != nil || e2 != nil {
 		return fmt.Sprintf("AST cannot be serialised: %v %v", e1, e2), info
 	}
-	info.j1 = j1
 	if inheritPrinterDefects {
 		// FS32: the formatter renders through the same ast Doc methods as the printer and inherits its defects (C38 FS9…FS23):
 		// empty else / pre / post blocks and an empty transaction parameter list are dropped
@@ -314,12 +314,6 @@ func TestC39(t *testing.T) {
 var inheritPrinterDefects bool
 
 func knownC39(rec *evid.Rec, msg string, src []byte, o Options, info c39Info) string {
-	if inheritPrinterDefects && info.j1 != nil && !strings.HasPrefix(msg, "comments changed") {
-		if id := knownPrinterDefect(func(string) bool { return true }, info.j1, msg+" "+lastFormatError(src, o), string(info.out)); id != "" {
-			rec.Class("inherited-printer-defect/" + id)
-			return "FS32"
-		}
-	}
 	if o.SkipVerify && rec.Known("FS29") && (strings.HasPrefix(msg, "formatter output does not parse") || strings.HasPrefix(msg, "AST changed") || strings.HasPrefix(msg, "import declarations changed")) {
 		// FS29: rendering defects that the formatter's own round-trip verification catches (it then returns an error, which the
 		// statement allows) are returned as "successful" output when the caller sets SkipVerify. Predicate: the same input with
@@ -338,10 +332,23 @@ func knownC39(rec *evid.Rec, msg string, src []byte, o Options, info c39Info) st
 		// the same comments and, with comments and whitespace removed, the same text.
 		return "FS30"
 	}
+	if inheritPrinterDefects && info.j1 != nil && (strings.HasPrefix(msg, "formatter output does not parse") || strings.HasPrefix(msg, "AST changed") ||
+		strings.HasPrefix(msg, "formatter panicked") || strings.HasPrefix(msg, "import declarations changed")) {
+		if id := knownPrinterDefect(func(string) bool { return true }, info.j1, msg+" "+lastFormatError(src, o), string(info.out)); id != "" {
+			rec.Class("inherited-printer-defect/" + id)
+			return "FS32"
+		}
+	}
 	if strings.HasPrefix(msg, "comments changed") {
 		if id := explainCommentChange(rec, src, info.out); id != "" {
 			return id
 		}
+	}
+	if strings.HasPrefix(msg, "formatter is not idempotent") && !o.StripSemicolons && rec.Known("FS41") && strings.Contains(string(info.out), ";;") &&
+		strings.ReplaceAll(codeOnly(info.out), ";", "") == strings.ReplaceAll(codeOnly(info.out2), ";", "") {
+		// FS41: with StripSemicolons=false the semicolon after a top-level declaration is emitted twice (`let a = 1;;`); when the
+		// value is re-parenthesised the second pass loses both. Predicate: the two outputs differ only in semicolons.
+		return "FS41"
 	}
 	if strings.HasPrefix(msg, "formatter is not idempotent") && o.SkipVerify && rec.Known("FS31") && rec.Known("FS29") && len(srcgen.ScanComments(info.out)) > 0 {
 		// FS31 seen through SkipVerify (FS29): with verification the second pass rejects the first output
